@@ -370,6 +370,14 @@ func c18Openers() []c18Case {
 	reg := func(c, w int) c18Msg { return c18Msg{K: "reg", C: c, W: w} }
 	two := []c18Contract{{Kind: "hello", Creator: 3, Admin: -1}, {Kind: "hello", Creator: 3, Admin: 4}}
 	return []c18Case{
+		// AllowedDenoms naming a denom twice (accepted by Params.Validate): the fee coin must count once
+		norm(c18Case{Contracts: two[:1], Steps: []c18Step{
+			{Op: "params", Enabled: true, Share: "1000000000000000000", Allowed: []int{2, 2}},
+			tx(3, f("2", "1000"), reg(8, 6)),
+			tx(4, f("2", "100"), ex(8)),
+			{Op: "params", Enabled: true, Share: "500000000000000000", Allowed: []int{0, 2, 0, 0}},
+			tx(4, f("0", "7", "1", "9", "2", "11"), ex(8), ex(8)),
+		}}),
 		// share 1, fee 3, two recipients: 1.5 rounds (half-even) to 2 each = 4 > fee; first tx of a block has
 		// only its own 3 in the collector -> rejected; with a cushion of earlier fees it pays 4
 		norm(c18Case{Contracts: two, Steps: []c18Step{
@@ -385,10 +393,10 @@ func c18Openers() []c18Case {
 		// strangers and former admins; factory (gov-admin) contract may only name itself
 		norm(c18Case{Contracts: []c18Contract{{Kind: "hello", Creator: 3, Admin: 4}, {Kind: "hello", Creator: 3, Admin: 1}, {Kind: "hello", Creator: 8, Admin: -1}}, Steps: []c18Step{
 			{Op: "params", Enabled: true, Share: "500000000000000000"},
-			tx(3, f("2", "10"), reg(8, 6)),  // creator but not admin: rejected
-			tx(4, f("2", "10"), reg(8, 6)),  // admin
-			tx(5, f("2", "10"), reg(9, 6)),  // factory: must name itself
-			tx(5, f("2", "10"), reg(9, 9)),  // ok, anyone
+			tx(3, f("2", "10"), reg(8, 6)),   // creator but not admin: rejected
+			tx(4, f("2", "10"), reg(8, 6)),   // admin
+			tx(5, f("2", "10"), reg(9, 6)),   // factory: must name itself
+			tx(5, f("2", "10"), reg(9, 9)),   // ok, anyone
 			tx(5, f("2", "10"), reg(10, 10)), // creator is a contract, no admin: factory
 			{Op: "admin", C: 8, Admin: 5},
 			tx(4, f("2", "10"), c18Msg{K: "upd", C: 8, W: 7}), // former admin
